@@ -81,6 +81,10 @@ inductive Clause where
   | vphF6 | vphAccepts (b : Option Binding) | vphRefuses
   | nameMirror (impl : Bytes) (key : Option Bytes) (exact : Option Bytes) | metaMirror (impl exact : Bytes)
   | e2eF6 | e2eAgree | e2eReached
+  -- `seq` records (the session over time): a tool the client has listed under its current definition
+  | seqStaleLook | seqLostLook       -- lookupTool answers with a superseded definition (preflight-F32) / does not find it
+  | seqStaleCall | seqLostCall | seqAgree   -- the call is refused: headers of a superseded definition (preflight-F32) / none / other
+  | seqLegacy                        -- a legacy session's call is refused
   | reached (status : Nat)
   | dispatchSound (p : Precond)
   | httpF6
